@@ -28,7 +28,12 @@ impl server::Handler for Handler {
         if self.accept {
             Ok((self, Auth::Accept))
         } else {
-            Ok((self, Auth::Reject { proceed_with_methods: None }))
+            Ok((
+                self,
+                Auth::Reject {
+                    proceed_with_methods: None,
+                },
+            ))
         }
     }
 
@@ -53,8 +58,11 @@ impl server::Handler for Handler {
 }
 
 pub fn config() -> Arc<server::Config> {
-    let key = russh_keys::load_secret_key(format!("{}/ssh_host_ed25519", crate::tlsserver::CERT_DIR), None)
-        .expect("ssh host key");
+    let key = russh_keys::load_secret_key(
+        format!("{}/ssh_host_ed25519", crate::tlsserver::CERT_DIR),
+        None,
+    )
+    .expect("ssh host key");
     Arc::new(server::Config {
         inactivity_timeout: Some(Duration::from_secs(3600)),
         auth_rejection_time: Duration::from_millis(10),
@@ -69,14 +77,24 @@ pub fn config() -> Arc<server::Config> {
 pub async fn start(
     accept: bool,
     password_seen: Option<Arc<std::sync::Mutex<Option<String>>>>,
-) -> (u16, mpsc::UnboundedReceiver<(server::Handle, ChannelId)>, tokio::task::JoinHandle<()>) {
+) -> (
+    u16,
+    mpsc::UnboundedReceiver<(server::Handle, ChannelId)>,
+    tokio::task::JoinHandle<()>,
+) {
     let listener = TcpListener::bind("127.0.0.1:0").await.unwrap();
     let port = listener.local_addr().unwrap().port();
     let (tx, rx) = mpsc::unbounded_channel();
     let cfg = config();
     let conn = tokio::spawn(async move {
-        let Ok((sock, _)) = listener.accept().await else { return };
-        let h = Handler { ready: tx, password_seen, accept };
+        let Ok((sock, _)) = listener.accept().await else {
+            return;
+        };
+        let h = Handler {
+            ready: tx,
+            password_seen,
+            accept,
+        };
         if let Ok(running) = server::run_stream(cfg, sock, h).await {
             let _ = running.await;
         }
@@ -90,7 +108,9 @@ pub async fn run_case(case: &Case, window: Duration, max: usize) -> Obs {
     let end = case.end.clone();
     let conn_abort = conn.abort_handle();
     let script = tokio::spawn(async move {
-        let Some((handle, ch)) = ready.recv().await else { return };
+        let Some((handle, ch)) = ready.recv().await else {
+            return;
+        };
         // let the client finish channel setup and start its pump
         tokio::time::sleep(Duration::from_millis(20)).await;
         for c in chunks {
@@ -133,8 +153,18 @@ pub async fn run_case(case: &Case, window: Duration, max: usize) -> Obs {
             drop(_tx);
             o
         }
-        Ok(Err(e)) => Obs { msgs: vec![], end: "err", again: "-", note: format!("connect: {e}") },
-        Err(_) => Obs { msgs: vec![], end: "err", again: "-", note: "connect: timeout".into() },
+        Ok(Err(e)) => Obs {
+            msgs: vec![],
+            end: "err",
+            again: "-",
+            note: format!("connect: {e}"),
+        },
+        Err(_) => Obs {
+            msgs: vec![],
+            end: "err",
+            again: "-",
+            note: "connect: timeout".into(),
+        },
     };
     script.abort();
     conn.abort();
